@@ -258,23 +258,62 @@ def f64Eps : Rat := 1 / 4503599627370496
 /-- `FloatExt::eq(a, b)`: `(a - b).abs() <= EPS` -/
 def floatEq (a b : Rat) : Bool := decide (qabs (a - b) ≤ f64Eps)
 
-def sumOpt : List (Option Rat) → Option Rat
-  | [] => some 0
-  | none :: _ => none
-  | some x :: xs => (sumOpt xs).map (x + ·)
+/-- the arithmetic `count_top_weighted_strains` performs, as a record so that the same control flow
+runs over ℚ (theorems) and over IEEE doubles (driver, compared with the implementation) -/
+structure CtwOps (R : Type) where
+  zero : R
+  ofNat : Nat → R
+  add : R → R → R
+  /-- `difficulty_value / 10.0` -/
+  tenth : R → R
+  /-- `a / b`; `none` = division by zero -/
+  div : R → R → Option R
+  /-- `FloatExt::eq(x, 0.0)`: `|x| <= f64::EPSILON` -/
+  isZero : R → Bool
+  /-- `1.1 / (1.0 + f64::exp(-10.0 * (r - 0.88)))`; `none` = division by zero -/
+  term : R → Option R
 
-/-- `count_top_weighted_strains(object_strains, difficulty_value)` with `exp` a parameter `ex`;
-`none` = a division by zero was reached. -/
-def countTopWeightedStrains (ex : Rat → Rat) (strains : List Rat) (dv : Rat) : Option Rat :=
-  if strains.isEmpty then some 0
+/-- `Iterator::sum` over checked terms: left fold -/
+def sumOptL {R : Type} (add : R → R → R) : R → List (Option R) → Option R
+  | acc, [] => some acc
+  | _, none :: _ => none
+  | acc, some x :: xs => sumOptL add (add acc x) xs
+
+/-- `count_top_weighted_strains(object_strains, difficulty_value)`; `none` = a division by zero
+was reached. -/
+def countTopG {R : Type} (O : CtwOps R) (strains : List R) (dv : R) : Option R :=
+  if strains.isEmpty then some O.zero
   else
-    let cts := dv / 10
-    if floatEq cts 0 then some (strains.length : Rat)
+    let cts := O.tenth dv
+    if O.isZero cts then some (O.ofNat strains.length)
     else
-      sumOpt (strains.map fun s =>
-        match cdiv s cts with
-        | none => none
-        | some r => cdiv (11 / 10) (1 + ex (-10 * (r - 22 / 25))))
+      sumOptL O.add O.zero (strains.map fun s => (O.div s cts).bind O.term)
+
+/-- the exact instance; `exp` is the parameter `ex` -/
+def ratCtwOps (ex : Rat → Rat) : CtwOps Rat :=
+  { zero := 0
+    ofNat := fun n => (n : Rat)
+    add := (· + ·)
+    tenth := fun x => x / 10
+    div := cdiv
+    isZero := fun x => floatEq x 0
+    term := fun r => cdiv (11 / 10) (1 + ex (-10 * (r - 22 / 25))) }
+
+/-- the IEEE instance executed by the driver (same operations, same order as the Rust code) -/
+def floatCtwOps : CtwOps Float :=
+  { zero := 0.0
+    ofNat := fun n => n.toFloat
+    add := (· + ·)
+    tenth := fun x => x / 10.0
+    div := fun a b => if b == 0.0 then none else some (a / b)
+    isZero := fun x => Float.abs (x - 0.0) <= 2.220446049250313e-16
+    term := fun r =>
+      let d := 1.0 + Float.exp (-10.0 * (r - 0.88))
+      if d == 0.0 then none else some (1.1 / d) }
+
+/-- `count_top_weighted_strains` over ℚ -/
+def countTopWeightedStrains (ex : Rat → Rat) (strains : List Rat) (dv : Rat) : Option Rat :=
+  countTopG (ratCtwOps ex) strains dv
 
 /-! ## 4. piecewise-rational helpers (src/util/difficulty.rs) -/
 
